@@ -234,7 +234,8 @@ PROPS['C08'].update({
                    'the same partial function (same_denotation: tree_fn(after, x) == tree_fn(before, x) for every x, undefinedness included), whose nodes are a subset of the old ones with unchanged indices '
                    '(never grows), and it never reaches the unwrap / assert panics of remove_child and merge_child_with_parent; AffFunc == compares shape, matrix and bias. The proof does not depend on the '
                    'order of the breadth-first list (left unspecified), each merge is justified on its own: a decision with one row whose two children are terminals with equal functions denotes that function. '
-                   'BOUNDED only (bc reduce): idempotence, "no decision below the root keeps two identical terminal children", decisions with differing children are kept (these depend on the visiting order), '
+                   'IDEMPOTENCE in the form: a tree in which no decision below the root has two terminal children with the same function (no_mergeable) is returned exactly as it is; a merge happens only where such a pair exists, so decisions whose terminal children differ in matrix or bias are kept (the merge branch is guarded by the verified ==). '
+                   'BOUNDED only (bc reduce): that one run reaches no_mergeable ("no decision below the root keeps two identical terminal children": depends on the bottom-up visiting order of the breadth-first list, left unspecified here), '
                    'and equality under non-standard memory layouts.'),
     'design_ref': 'DESIGN.md §4 C08',
     'assumptions': ASSUME_COMMON + ASSUME_SLAB + ASSUME_ND + ASSUME_PWL + ASSUME_BC + [
